@@ -7,6 +7,15 @@ import json
 import vlib
 
 
+
+def vacuity(ctx, msg):
+    """a vacuity alarm is a tool error only when nothing else explains the missing cases: with violations or
+    drift on record the verdict comes first and the alarm is demoted to a note"""
+    if ctx.violations or ctx.drift:
+        ctx.note("vacuity (demoted: violations or drift on record): " + msg)
+    else:
+        raise vlib.ToolError("vacuity: " + msg)
+
 def diff_keys(e):
     ks = sorted(set(e["prog"]) | set(e["sdk"]))
     return [k for k in ks if e["prog"].get(k) != e["sdk"].get(k)]
@@ -53,12 +62,12 @@ def run(ctx):
     for need in ("view/wild", "view/plausible", "layout/sizes", "layout/offsets", "action/pure", "action/impure",
                  "discount/wild", "discount/plausible"):
         if kinds.get(need, 0) == 0:
-            raise vlib.ToolError("vacuity: no event of kind %s" % need)
+            vacuity(ctx, "no event of kind %s" % need)
     for a in ("Deposit", "Withdraw", "Swap", "Distribute"):
         if by_act.get(a, 0) == 0:
-            raise vlib.ToolError("vacuity: no successful %s action" % a)
+            vacuity(ctx, "no successful %s action" % a)
     if closed == 0 or pure == 0:
-        raise vlib.ToolError("vacuity: closed=%d pure=%d" % (closed, pure))
+        vacuity(ctx, "closed=%d pure=%d" % (closed, pure))
     ctx.distinct += len({json.dumps(e["prog"], sort_keys=True) for e in ev})
     ctx.cov["samples"] += [ev[0], ev[2], next(e for e in acts if not e["prog"]["report"].startswith("Err"))]
     ctx.cov["trusted_base"] += ["TLC", "harness h-sdk c40 driver: ONE generic projection function applied to both types; "
